@@ -1633,7 +1633,11 @@ class Exec:
             spec = (me.call_ghost if me else {}).get((fr.qual, ordinal)) or (me.call_ghost if me else {}).get(fr.qual) or {}
             for g, gty in c.ghost.items():
                 if g in c.hints.get('ghost_out', ()):
-                    ghosts[g] = default_value(w.ty(gty)); continue        # output witness: bound after the call
+                    # output witness: (re)bound after the call; its value before the call (if the contract's requires mention it: an
+                    # in/out ghost such as a monotone flag) is the caller's ghost variable of the same name, when there is one
+                    if g in self.st.env and isinstance(self.st.env[g], V): ghosts[g] = coerce(self.val(self.st.env[g]), w.ty(gty))
+                    else: ghosts[g] = default_value(w.ty(gty))
+                    continue
                 if g in spec:
                     tree = self.vf.parse_spec(spec[g])
                     self.spec += 1
@@ -1846,7 +1850,7 @@ class Exec:
         if meth is None: raise Unsupported('statement %s' % type(st).__name__)
         meth(st)
         c = self.frame.get('contract')
-        if c is not None and c.ghost_after and isinstance(st, (ast.Expr, ast.Assign, ast.AugAssign)):
+        if c is not None and c.ghost_after and isinstance(st, (ast.Expr, ast.Assign, ast.AugAssign, ast.Pass)):
             # ghost updates attached (in the sidecar) to a statement, identified by its normalised source text
             upd = c.ghost_after.get(ast.unparse(st))
             if upd:
@@ -2076,7 +2080,7 @@ class Exec:
         c_ = self.frame.get('contract'); ghost_heap = set()
         if c_ is not None and c_.ghost_after:
             for n_ in ast.walk(st):
-                if isinstance(n_, (ast.Expr, ast.Assign, ast.AugAssign)):
+                if isinstance(n_, (ast.Expr, ast.Assign, ast.AugAssign, ast.Pass)):
                     for gname, _ in c_.ghost_after.get(ast.unparse(n_), ()):
                         if gname.isidentifier(): targets.add(gname)
                         else:
